@@ -24,8 +24,11 @@
 (*   - A downstream that outlives its request deadline returns a           *)
 (*     request-local failure (what the resolver does); with the deadline   *)
 (*     passed the cache wrapper records nothing shared either way.         *)
-(*   - Time is a small Nat; with Urgent = TRUE zero-time steps happen      *)
-(*     before the clock moves, which turns "in time" into an invariant.    *)
+(*   - Timed = FALSE: no clock, deadlines / cancellations / generation     *)
+(*     timeouts fire at any moment (every timing at once: safety and       *)
+(*     liveness configs).  Timed = TRUE: time is a small Nat; with         *)
+(*     Urgent = TRUE zero-time steps happen before the clock moves, which  *)
+(*     turns "in time" into an invariant.                                  *)
 (***************************************************************************)
 EXTENDS Integers, FiniteSets, Sequences, TLC
 
@@ -49,7 +52,10 @@ CONSTANTS
   Defensive,    \* TRUE: a caller that does not test generationTimedOut itself and relies on
                 \*       Regroup's own tombstone rule (API-level behaviours for the waitgroup replay;
                 \*       Cache.ServeDNS is Defensive = FALSE)
-  WriterGuard   \* TRUE in the code: responseWriter refuses a write once Written()
+  WriterGuard,  \* TRUE in the code: responseWriter refuses a write once Written()
+  Bug           \* "none" in the code.  Negative configs (TLC must find the violation, so the invariants
+                \* are not vacuous): "recordLocal" = a request-local failure is recorded as shared state;
+                \* "regroupTombstone" = Regroup ignores that the previous generation timed out
 
 VARIABLES
   groups,    \* [Keys -> 0..MaxGen]   WaitGroup.groups (0 = no entry)
@@ -158,7 +164,7 @@ Regroup(r) ==
   /\ p # 0 /\ k \in Probe
   /\ regroups[r] < MaxRegroups
   /\ regroups' = [regroups EXCEPT ![r] = @ + 1]
-  /\ IF gTO[p]                       \* tombstone: never replaced, never linked
+  /\ IF gTO[p] /\ Bug # "regroupTombstone"   \* tombstone: never replaced, never linked
        THEN /\ BecomeFollower(r, p)
             /\ UNCHANGED wgVars
        ELSE IF gNext[p] # 0          \* cohort already linked to its next generation
@@ -301,7 +307,11 @@ Downstream(r, o, dup) ==
             /\ UNCHANGED cached
             /\ WriteN(r, "servfail", n)
        [] o = "failLocal" ->
-            /\ UNCHANGED storeVars
+            /\ IF Bug = "recordLocal" /\ cx[r] = "live"
+                 THEN /\ failed' = [failed EXCEPT ![k] = TRUE]
+                      /\ failedBy' = [failedBy EXCEPT ![k] = "local"]
+                      /\ UNCHANGED cached
+                 ELSE UNCHANGED storeVars
             /\ IF cx[r] = "canceled" THEN UNCHANGED wrVars ELSE WriteN(r, "local", n)
   /\ pc' = [pc EXCEPT ![r] = Finish(r)]
   /\ UNCHANGED <<wgVars, role, mygen, prev, regroups, arrival, cx, downs, now>>
